@@ -318,8 +318,8 @@ PREVIEWS = ([["run", "-d"]], [["status"]], [["run", "-d"], ["status", "-f", "sum
 def cli_preview_batch(acc, batch):
     """Histories: a project (fresh or empty, spec hashing on or off) + one disturbance (a script edited, a source touched, an output deleted)
     + a prefix of previews (`run --dry-run`, `status`) + the real `gwf run [sel]`.  Oracle: the real run submits exactly what it submits
-    without the previews (same targets, same order class, same prerequisites), and with hashing on an edited script alone makes exactly
-    that target and everything downstream of it run."""
+    without the previews (same targets, same prerequisites), and the run without previews submits exactly the reference plan of that world
+    (with hashing on, an edited script makes that target and everything downstream of it run; a target without outputs always runs)."""
     from mc import cliworld as CW
     from mc.ref import graph as G
 
@@ -348,16 +348,10 @@ def cli_preview_batch(acc, batch):
                 problems.append(f"run after previews: exit {r.exit_code} {r.exc}, without previews exit {ref_r.exit_code}")
             if sorted(got) != sorted(ref):
                 problems.append(f"after previews {[list(c) for c in pv]} the run submitted {got}, without them {ref}")
-            if not pv and hashing and fresh and len(setup) == 1 and setup[0][0] == "editspec" and not sel:
-                x = setup[0][1]
-                want, todo = {x}, [x]
-                while todo:
-                    for d in dependents.get(todo.pop(), ()):
-                        if d not in want:
-                            want.add(d)
-                            todo.append(d)
+            if not pv:
+                want = set(CW.ref_plan(base, roots=list(sel) or None)["submitted"])
                 if {g[0] for g in got} != want:
-                    problems.append(f"script of {x} edited: run submitted {sorted(g[0] for g in got)}, expected {sorted(want)}")
+                    problems.append(f"run submitted {sorted(g[0] for g in got)}, reference plan {sorted(want)}")
             acc.case(key=json.dumps(case, sort_keys=True), outcome=f"preview n_submit={len(got)}", sample=case, nontrivial=bool(got))
             acc.extra["cli_invocations"] += 1 + len(pv)
             if problems:
